@@ -409,6 +409,7 @@ type clause struct {
 type loopSpec struct {
 	invariants []*clause
 	decreases  *clause
+	exits      []*clause // asserted on every edge leaving the loop
 }
 
 type slotClause struct {
@@ -719,6 +720,8 @@ func (ss *SpecSet) parseContracts(pkg string, lines []specLine) {
 				ls.invariants = append(ls.invariants, c)
 			} else if what == "decreases" {
 				ls.decreases = c
+			} else if what == "exit" {
+				ls.exits = append(ls.exits, c)
 			} else {
 				fail(l, "unknown loop clause %q", what)
 			}
